@@ -1,3 +1,118 @@
+"""concurrent.futures as seen by the code under test: a process-pool *model*.
+
+* every task runs on deep copies of the callable and of its arguments (what pickling across processes
+  gives): mutations made by a task are invisible to the parent and to other tasks;
+* tasks *execute* in a completion order chosen by the harness (CONFIG["order"], a permutation applied per
+  batch of outstanding tasks), `Executor.map` nevertheless yields results in submission order and
+  `as_completed` yields them in completion order - the only two facts the model captures.
+Real scheduling, pickling failures and worker state are outside the model."""
+import copy
 import types
-from .. import core
-module = types.ModuleType("executor")
+
+CONFIG = {"order": None, "log": []}
+
+
+def _perm(n):
+    o = CONFIG.get("order")
+    if o is None:
+        return list(range(n))
+    p = [i for i in o if i < n]
+    return p + [i for i in range(n) if i not in p]
+
+
+def _copy_callable(fn):
+    """what pickling does to a callable: functions go by reference, the arguments bound in a partial are copied"""
+    import functools
+    if isinstance(fn, functools.partial):
+        return functools.partial(_copy_callable(fn.func), *copy.deepcopy(fn.args), **copy.deepcopy(fn.keywords))
+    return fn
+
+
+class Future:
+    def __init__(self, fn, args, kwargs):
+        self._call = (fn, args, kwargs)
+        self._done = False
+        self._res = None
+        self._exc = None
+
+    def _run(self):
+        if self._done:
+            return
+        fn, args, kwargs = self._call
+        fn = _copy_callable(fn)
+        args, kwargs = copy.deepcopy((args, kwargs))
+        try:
+            self._res = fn(*args, **kwargs)
+        except Exception as e:      # delivered when result() is called, as a real future does
+            self._exc = e
+        self._done = True
+
+    def result(self, timeout=None):
+        self._run()
+        if self._exc is not None:
+            raise self._exc
+        return self._res
+
+    def done(self):
+        return self._done
+
+
+class ProcessPoolExecutor:
+    def __init__(self, max_workers=None, **kw):
+        if max_workers is not None and max_workers <= 0:
+            raise ValueError("max_workers must be greater than 0")
+        self.max_workers = max_workers
+        self._futures = []
+        CONFIG["log"].append(("pool", max_workers))
+
+    def __enter__(self):
+        return self
+
+    def __exit__(self, *a):
+        self.shutdown()
+        return False
+
+    def shutdown(self, wait=True, **kw):
+        for i in _perm(len(self._futures)):
+            self._futures[i]._run()
+
+    def submit(self, fn, /, *args, **kwargs):
+        f = Future(fn, args, kwargs)
+        self._futures.append(f)
+        return f
+
+    def map(self, fn, *iterables, timeout=None, chunksize=1):
+        futs = [self.submit(fn, *args) for args in zip(*iterables)]
+        for i in _perm(len(futs)):      # tasks complete in the harness-chosen order ...
+            futs[i]._run()
+
+        def gen():                       # ... results are delivered in submission order
+            for f in futs:
+                yield f.result()
+        return gen()
+
+
+ThreadPoolExecutor = ProcessPoolExecutor
+
+
+def as_completed(fs, timeout=None):
+    fs = list(fs)
+    for i in _perm(len(fs)):
+        fs[i]._run()
+        yield fs[i]
+
+
+def wait(fs, timeout=None, return_when="ALL_COMPLETED"):
+    fs = list(fs)
+    for i in _perm(len(fs)):
+        fs[i]._run()
+    return set(fs), set()
+
+
+module = types.ModuleType("concurrent.futures")
+module.ProcessPoolExecutor = ProcessPoolExecutor
+module.ThreadPoolExecutor = ThreadPoolExecutor
+module.as_completed = as_completed
+module.wait = wait
+module.Future = Future
+module.CONFIG = CONFIG
